@@ -90,5 +90,5 @@ Definition w_modes : list cp :=
 
 Example modes_all_clean :
   forallb (fun b => b) (clean_flags (before_first_error (fst (run_lex [] w_modes))) true) = true
-  /\ length (before_first_error (fst (run_lex [] w_modes))) = 33%nat.
+  /\ length (before_first_error (fst (run_lex [] w_modes))) = 29%nat.
 Proof. vm_compute. split; reflexivity. Qed.
